@@ -213,6 +213,31 @@ func Cert(r *core.Rand) rm.Cert {
 	if t == rm.CertKey && r.Chance(1, 3) {
 		n = r.Pick(9) // around the 4 bytes of the two key-type fields: 0..3 short, 4 exact, 5..8 surplus
 	}
+	if t == rm.CertMultiple && r.Chance(1, 2) {
+		// a MULTIPLE certificate whose payload is itself a sequence of certificates: empty ones
+		// (type, zero length), short ones, one cut off, one declaring more than is there
+		var p []byte
+		for k := 0; k < 1+r.Pick(5); k++ {
+			nt := byte(r.Pick(6))
+			switch r.Pick(5) {
+			case 0:
+				p = append(p, nt, 0, 0)
+			case 1:
+				body := r.Bytes(1 + r.Pick(12))
+				p = append(append(p, nt, 0, byte(len(body))), body...)
+			case 2:
+				p = append(p, nt, 0)
+			case 3:
+				p = append(p, nt, byte(r.Pick(256)), byte(r.Pick(256)))
+			default:
+				p = append(p, Cert(r).Encode()...)
+			}
+			if len(p) > 600 {
+				break
+			}
+		}
+		return rm.Cert{Type: t, Payload: p}
+	}
 	return rm.Cert{Type: t, Payload: r.Bytes(n)}
 }
 
